@@ -99,7 +99,7 @@ theorem exec_pending_sub (v : Variant) (s : St) (t : Nat) (i : Instr) (rest : Li
   cases i
   case register d => exact absurd rfl (hi d)
   case srv a =>
-    simp only [exec] at hc
+    simp only [exec, flushBody] at hc
     split at hc
     · exact hc
     · cases a <;> simp only [execSrv] at hc
@@ -115,21 +115,21 @@ theorem exec_pending_sub (v : Variant) (s : St) (t : Nat) (i : Instr) (rest : Li
       case close => exact hc
       case rerr => exact hc
   case cancelConts d r =>
-    simp only [exec] at hc
+    simp only [exec, flushBody] at hc
     rw [setProg_pending, updCmd_pending, foldl_setCont2_pending] at hc; exact hc
   case cancelOrphans ks =>
-    simp only [exec] at hc
+    simp only [exec, flushBody] at hc
     rw [setProg_pending, foldl_setCont_pending] at hc; exact hc
   case closeSwap =>
-    simp only [exec] at hc
+    simp only [exec, flushBody] at hc
     split at hc <;> cases hc
   case delByTag tag rep caps =>
-    simp only [exec] at hc
+    simp only [exec, flushBody] at hc
     split at hc
     · exact hc
     · exact List.mem_of_mem_erase hc
   all_goals
-    simp only [exec] at hc
+    simp only [exec, flushBody] at hc
     repeat' split at hc
     all_goals exact hc
 
@@ -165,18 +165,18 @@ theorem exec_keep_rest_cls (v : Variant) (s : St) (t : Nat) (i : Instr) (rest : 
   have hold : x ∈ s.prog t := by rw [hs]; exact List.mem_cons_of_mem _ hx
   cases i <;> simp [cls] at hc
   case closeSwap =>
-    simp only [exec]
+    simp only [exec, flushBody]
     split
     · rw [setProg_prog, if_pos rfl]
       exact List.mem_append_right _ (List.mem_cons_of_mem _ hx)
     · rw [setProg_prog, if_pos rfl]
       exact List.mem_append_right _ hx
   case cancelConts c r =>
-    simp only [exec]; rw [setProg_prog, if_pos rfl]; exact hx
+    simp only [exec, flushBody]; rw [setProg_prog, if_pos rfl]; exact hx
   case cancelOrphans ks =>
-    simp only [exec]; rw [setProg_prog, if_pos rfl]; exact hx
+    simp only [exec, flushBody]; rw [setProg_prog, if_pos rfl]; exact hx
   all_goals
-    simp only [exec]
+    simp only [exec, flushBody]
     repeat' split
     all_goals
       first
@@ -203,7 +203,7 @@ theorem exec_keep_flush (v : Variant) (s : St) (t : Nat) (i : Instr) (rest : Lis
     case delByTag tag rep caps => exact absurd hm (not_mem_of_all_notFlush x hx rest hw)
     case popCont => exact absurd hm (not_mem_of_all_notFlush x hx rest hw)
     case idleGo c =>
-      simp only [exec]
+      simp only [exec, flushBody]
       split
       · exact hold
       · rw [setProg_prog]
@@ -211,7 +211,7 @@ theorem exec_keep_flush (v : Variant) (s : St) (t : Nat) (i : Instr) (rest : Lis
         · rename_i e; exact absurd e (by simp [idleTid])
         · rw [setProg_prog, if_pos rfl]; exact hm
     case srv a =>
-      simp only [exec]
+      simp only [exec, flushBody]
       split
       · exact hold
       · cases a <;> simp only [execSrv]
@@ -227,7 +227,7 @@ theorem exec_keep_flush (v : Variant) (s : St) (t : Nat) (i : Instr) (rest : Lis
         case close => rw [setProg_prog, if_pos rfl]; exact hm
         case rerr => rw [setProg_prog, if_pos rfl]; exact hm
     case contWait c idle =>
-      simp only [exec]
+      simp only [exec, flushBody]
       repeat' split
       all_goals
         first
@@ -239,7 +239,7 @@ theorem exec_keep_flush (v : Variant) (s : St) (t : Nat) (i : Instr) (rest : Lis
                   refine List.mem_cons_of_mem _ (mem_dropThrough_flush x hx rest ?_ hm)
                   subst hidle; exact hw))
     case idleWait c =>
-      simp only [exec]
+      simp only [exec, flushBody]
       repeat' split
       all_goals
         first
@@ -249,7 +249,7 @@ theorem exec_keep_flush (v : Variant) (s : St) (t : Nat) (i : Instr) (rest : Lis
                | exact hm
                | exact mem_dropThrough_flush x hx rest hw hm)
     all_goals
-      simp only [exec]
+      simp only [exec, flushBody]
       repeat' split
       all_goals
         first
@@ -293,7 +293,7 @@ theorem rdLoop_exec_self (v : Variant) (s : St) (i : Instr) (rest : List Instr)
     intro s' e; rw [e]; exact List.mem_cons_self
   cases i <;> simp [rdInstr, cls] at hi
   case connRead =>
-    simp only [exec]
+    simp only [exec, flushBody]
     split
     · left; right; rw [setProg_prog, if_pos rfl]; rfl
     · split
@@ -302,7 +302,7 @@ theorem rdLoop_exec_self (v : Variant) (s : St) (i : Instr) (rest : List Instr)
         · right; exact hexit _ (by rw [setProg_prog, if_pos rfl])
         · left; exact hl
   case rdNext =>
-    simp only [exec]
+    simp only [exec, flushBody]
     split
     · left; left; rw [setProg_prog, if_pos rfl]; rfl
     · left; right
@@ -313,25 +313,25 @@ theorem rdLoop_exec_self (v : Variant) (s : St) (i : Instr) (rest : List Instr)
       unfold rdLoop at hl
       rw [hs, e] at hl
       simp at hl
-    simp only [exec]
+    simp only [exec, flushBody]
     left
     exact rdLoop_of_push hl _ rest [] hs hne (by rw [setProg_prog, if_pos rfl]; rfl)
   case delByTag tag rep caps =>
     have hne := rd_rest_ne_nil h _ rest hs (by simp) (by simp) (by simp)
-    simp only [exec]
+    simp only [exec, flushBody]
     split
     · right; exact hexit _ (by rw [setProg_prog, if_pos rfl])
     · left; exact rdLoop_of_push hl _ rest _ hs hne (by rw [setProg_prog, if_pos rfl])
   case popCont =>
     have hne := rd_rest_ne_nil h _ rest hs (by simp) (by simp) (by simp)
-    simp only [exec]
+    simp only [exec, flushBody]
     split
     · right; exact hexit _ (by rw [setProg_prog, if_pos rfl])
     · rename_i k c more _
       left; exact rdLoop_of_push hl _ rest [Instr.contDone k] hs hne (by rw [setProg_prog, if_pos rfl]; rfl)
   case closeSwap =>
     have hne := rd_rest_ne_nil h _ rest hs (by simp) (by simp) (by simp)
-    simp only [exec]
+    simp only [exec, flushBody]
     split
     · left
       exact rdLoop_of_push hl _ rest
@@ -340,19 +340,19 @@ theorem rdLoop_exec_self (v : Variant) (s : St) (i : Instr) (rest : List Instr)
     · left; exact rdLoop_of_push hl _ rest _ hs hne (by rw [setProg_prog, if_pos rfl])
   case loadDone c r =>
     have hne := rd_rest_ne_nil h _ rest hs (by simp) (by simp) (by simp)
-    simp only [exec]
+    simp only [exec, flushBody]
     left; exact rdLoop_of_push hl _ rest [Instr.send c r (s.cmd c).chanInit] hs hne (by rw [setProg_prog, if_pos rfl]; rfl)
   case cancelConts c r =>
     have hne := rd_rest_ne_nil h _ rest hs (by simp) (by simp) (by simp)
-    simp only [exec]
+    simp only [exec, flushBody]
     left; exact rdLoop_of_push hl _ rest [] hs hne (by rw [setProg_prog, if_pos rfl]; rfl)
   case cancelOrphans ks =>
     have hne := rd_rest_ne_nil h _ rest hs (by simp) (by simp) (by simp)
-    simp only [exec]
+    simp only [exec, flushBody]
     left; exact rdLoop_of_push hl _ rest [] hs hne (by rw [setProg_prog, if_pos rfl]; rfl)
   all_goals
     have hne := rd_rest_ne_nil h _ rest hs (by simp) (by simp) (by simp)
-    simp only [exec]
+    simp only [exec, flushBody]
     repeat' split
     all_goals
       left
@@ -366,7 +366,7 @@ theorem exec_mem_other (v : Variant) (s : St) (t u : Nat) (i : Instr) (rest : Li
     (x : Instr) (hx : x ∈ s.prog u) : x ∈ (exec v s t i rest).prog u := by
   by_cases hi : ∃ c, i = .idleGo c
   · obtain ⟨c, rfl⟩ := hi
-    simp only [exec]
+    simp only [exec, flushBody]
     split
     · exact hx
     · rename_i hg
@@ -476,7 +476,7 @@ theorem pend_exec (v : Variant) (s : St) (t : Nat) (i : Instr) (rest : List Inst
   by_cases hcs : i = .closeSwap
   · subst hcs
     intro c hc
-    simp only [exec] at hc
+    simp only [exec, flushBody] at hc
     split at hc <;> cases hc
   by_cases hfl : isFlush i = true
   · -- the head is a flush
@@ -497,18 +497,22 @@ theorem pend_exec (v : Variant) (s : St) (t : Nat) (i : Instr) (rest : List Inst
     intro c hc
     have hcp : c ∈ s.pending := exec_pending_sub v s t _ rest (fun _ e => by cases e) c hc
     clear hc
-    simp only [exec]
-    split
-    · exact h c hcp
-    · cases m0
+    have core : ∀ s1 : St, s1.prog = s.prog → s1.pending = s.pending → s1.writable = s.writable →
+        (rdLoop (flushBody s1 t c0 w0 m0 rest) ∨ (∃ u, Instr.closeSwap ∈ (flushBody s1 t c0 w0 m0 rest).prog u) ∨
+          (∃ u w m, Instr.flush c w m ∈ (flushBody s1 t c0 w0 m0 rest).prog u)) := by
+      intro s1 hp1 hpe1 hwr1
+      have hprog1 : ∀ (z : St), z.prog = s1.prog → ∀ u, (z.setProg t rest).prog u = if u = t then rest else s.prog u := by
+        intro z hz u; rw [setProg_prog, hz, hp1]
+      simp only [flushBody]
+      cases m0
       case final =>
         simp only []
         split
         · rename_i he
           have hc0 : c0 ∉ s.pending := by
             simp only [Bool.and_eq_true, Bool.not_eq_true', decide_eq_true_eq] at he
-            intro hm; have := he.2; simp [hm] at this
-          refine pend_pop t _ rest hs (fun u => by rw [setProg_prog]) ht (by simp) c (h c hcp) ?_
+            intro hm; have := he.2; rw [hpe1] at this; simp [hm] at this
+          refine pend_pop t _ rest hs (hprog1 _ rfl) ht (by simp) c (h c hcp) ?_
           intro w m e
           injection e with e1
           exact absurd (e1 ▸ hcp) hc0
@@ -516,7 +520,8 @@ theorem pend_exec (v : Variant) (s : St) (t : Nat) (i : Instr) (rest : List Inst
           · rename_i hw
             simp only [Bool.and_eq_true] at hw
             left
-            exact hkeepLoop _ (by rw [setProg_prog, if_neg (fun e => ht e.symm)]) (halive hw.2)
+            refine hkeepLoop _ ?_ (halive (hwr1 ▸ hw.2))
+            rw [setProg_prog, if_neg (fun e => ht e.symm)]; exact congrFun hp1 tReader
           · right; left
             exact ⟨t, by rw [setProg_prog, if_pos rfl]; exact List.mem_cons_self⟩
       case lit =>
@@ -530,26 +535,35 @@ theorem pend_exec (v : Variant) (s : St) (t : Nat) (i : Instr) (rest : List Inst
           subst e1
           exact exists_flush_of_any c rest hwf
         split
-        · exact hpop _ (fun u => by rw [setProg_prog])
+        · exact hpop _ (hprog1 _ rfl)
         · split
-          · exact hpop _ (fun u => by rw [setProg_prog])
-          · exact hpop _ (fun u => by rw [setProg_prog, updCmd_prog])
+          · exact hpop _ (hprog1 _ rfl)
+          · exact hpop _ (hprog1 _ rfl)
       case idle =>
         simp only []
         split
         · rename_i hw
           left
-          exact hkeepLoop _ (by rw [setProg_prog, if_neg (fun e => ht e.symm)]) (halive hw)
+          refine hkeepLoop _ ?_ (halive (hwr1 ▸ hw))
+          rw [setProg_prog, if_neg (fun e => ht e.symm)]; exact congrFun hp1 tReader
         · right; left
           exact ⟨t, by rw [setProg_prog, if_pos rfl]; exact List.mem_cons_self⟩
+    simp only [exec]
+    split
+    · exact h c hcp
+    · split
+      · exact h c hcp
+      · split
+        · exact core _ rfl rfl rfl
+        · exact core _ rfl rfl rfl
   · have hfl' : isFlush i = false := by simpa using hfl
     by_cases hreg : ∃ c0, i = .register c0
     · obtain ⟨c0, rfl⟩ := hreg
       intro c hc
       by_cases hg : (!s.holds t || (s.cmd c0).registered) = true
-      · simp only [exec, hg, if_true] at hc ⊢; exact h c hc
+      · simp only [exec, flushBody, hg, if_true] at hc ⊢; exact h c hc
       · have hc' : c ∈ s.pending ++ [c0] := by
-          simp only [exec, hg, Bool.false_eq_true, if_false] at hc; exact hc
+          simp only [exec, flushBody, hg, Bool.false_eq_true, if_false] at hc; exact hc
         rcases List.mem_append.mp hc' with hm | hm
         · exact pend_transfer v s t _ rest hs ctx hcs hfl' c (h c hm)
         · rw [List.mem_singleton] at hm
@@ -557,7 +571,7 @@ theorem pend_exec (v : Variant) (s : St) (t : Nat) (i : Instr) (rest : List Inst
           obtain ⟨w, m, hx⟩ := exists_flush_of_any c rest hwf
           right; right
           refine ⟨t, w, m, ?_⟩
-          simp only [exec, hg, Bool.false_eq_true, if_false]
+          simp only [exec, flushBody, hg, Bool.false_eq_true, if_false]
           rw [setProg_prog, if_pos rfl]; exact hx
     · intro c hc
       have hm := exec_pending_sub v s t i rest (fun c0 e => hreg ⟨c0, e⟩) c hc
@@ -664,7 +678,7 @@ theorem srvOnly_step (v : Variant) (s : St) (t : Nat) (h : SrvOnly s) : SrvOnly 
             have hrest : ∀ x, x ∈ rest → ∃ a, x = Instr.srv a :=
               fun x hx => h x (by rw [hs]; exact List.mem_cons_of_mem _ hx)
             intro x hx
-            simp only [exec] at hx
+            simp only [exec, flushBody] at hx
             split at hx
             · exact h x hx
             · cases a <;> simp only [execSrv] at hx
